@@ -97,6 +97,13 @@ type c05Inst struct {
 	// inject: the result of a block executed elsewhere (by another group's instance on the
 	// same world); the next applyBlock("empty") models it instead of executing a block
 	inject *fix.BlockResult
+	// combined blocks (two groups acting in ONE block): with collect set the instance only builds
+	// its transactions (collected) and steps its model; the other instance executes the block
+	// with them in front of its own (pre) and its positions shifted by pad
+	collect   bool
+	collected []pb.Transaction
+	pre       []pb.Transaction
+	pad       int
 }
 
 type c05Step struct {
@@ -143,8 +150,10 @@ func (in *c05Inst) applyBlock(spec string) bool {
 		st.begunBefore[id] = cs.begun
 	}
 	var txs []pb.Transaction
+	st.posChild = make([]string, in.pad)
 	if spec != "empty" {
-		for i, d := range strings.Split(spec, "+") {
+		for i0, d := range strings.Split(spec, "+") {
+			i := i0 + in.pad
 			f := strings.Split(d, ":")
 			c := in.child(f[1])
 			if c == nil {
@@ -204,10 +213,15 @@ func (in *c05Inst) applyBlock(spec string) bool {
 		m.doomed, m.doomedAt = true, h
 		st.doomNow, st.trigger = true, -1
 	}
-	if in.inject != nil {
+	switch {
+	case in.inject != nil:
 		st.res = in.inject
-	} else {
-		st.res = w.Block(txs...)
+	case in.collect:
+		in.collected = txs
+		in.last = st
+		return true // the block is executed by the other instance; it sets st.res
+	default:
+		st.res = w.Block(append(append([]pb.Transaction{}, in.pre...), txs...)...)
 	}
 	if st.ambiguous && !m.doomed {
 		ok, data := viewState(w.R, constant.TransactionMgrContractAddr, contracts.GlobalTxInfoKey(g.globalID()))
@@ -395,7 +409,7 @@ func C05(c *mc.Ctx) {
 	}
 	c05TwoGroups(c)
 	fix.Cleanup()
-	c.Set("rule_two_groups", "two groups of two source services of ONE source chain (identical destination maps, T=2) on one world: begins, success and failure receipts of either group and empty blocks, so that one group times out in the block in which the other fails; the C05 invariants are evaluated for both groups after every block, and the timeout / group-rollback notifications the real router hands to each chain are compared with the block's lists")
+	c.Set("rule_two_groups", "two groups of two source services of ONE source chain (identical destination maps, T=2) on one world: begins, success and failure receipts of either group, of BOTH groups in one block, and empty blocks, so that one group times out in the block in which the other fails and both fail / complete in the same block; the C05 invariants are evaluated for both groups after every block, and the timeout / group-rollback notifications the real router hands to each chain are compared with the block's lists")
 	c.Set("rule", "BFS over block histories of child begins, success/failure/rollback receipts (also duplicates, receipts before begin, several per block) and empty blocks for three groups: 2 children on 2 destination chains; a group whose first child is refused by a blacklisting destination; 3 children with one unregistered destination; timeout 0 and 2. After every block: global SUCCESS only with all children succeeded; once a child failed or the group timed out the global and every child status are in the failure/rollback family for ever; all-succeeded implies global SUCCESS; in the failing block the source chain is told about every begun child and each destination chain about its already-succeeded child (union of delivery, multi-tx and timeout notification sets)")
 	c.Assume("proofs valid; destination W uses the true/false WASM rule with accepting proofs")
 	if c.Get("doom_blocks_checked") == 0 || c.Get("global_success_states") == 0 {
@@ -405,11 +419,12 @@ func C05(c *mc.Ctx) {
 
 // c05TwoGroups: two groups from two services of the same source chain on one world.
 func c05TwoGroups(c *mc.Ctx) {
-	ops := []string{"1:b:c1+b:c2", "2:b:c1+b:c2", "2:r:c2:f", "1:r:c1:s", "empty", "2:b:c1", "1:r:c2:f", "2:r:c1:s"}
+	// "12:<spec>": BOTH groups perform <spec> in one block (group 1's transactions first)
+	ops := []string{"1:b:c1+b:c2", "2:b:c1+b:c2", "2:r:c2:f", "1:r:c1:s", "empty", "12:b:c1+b:c2", "12:r:c2:f", "12:r:c1:s+r:c2:s", "2:b:c1", "1:r:c2:f", "2:r:c1:s"}
 	depth := 5
 	if c.Quick() {
 		depth = 4
-		ops = ops[:6]
+		ops = ops[:8]
 	}
 	b := &mc.BFS{C: c, Name: "icmc-two-groups-T2", MaxDepth: depth,
 		Init:    func() mc.Instance { return newC06TwoGroups(2) },
